@@ -4,7 +4,9 @@ PATCH="$1"; shift
 cd /repo || exit 2
 if ! git diff --quiet; then echo "/repo has uncommitted changes"; exit 2; fi
 git apply "$PATCH" || { echo "patch does not apply"; exit 2; }
-trap 'git -C /repo checkout -- . ; git -C /repo clean -fdq crates' EXIT INT TERM
+EVBK=$(mktemp -d /var/tmp/evbk.XXXXXX); cp /verif/evidence/C*.json $EVBK/ 2>/dev/null
+# evidence files written while a patch is applied describe the PATCHED tree: restore the committed ones afterwards
+trap 'git -C /repo checkout -- . ; git -C /repo clean -fdq crates; cp $EVBK/C*.json /verif/evidence/ 2>/dev/null; rm -rf $EVBK' EXIT INT TERM
 for p in "$@"; do
   echo "=== $p"
   ( cd /verif && bin/check "$p" --tier quick 2>/dev/null | grep -E "VIOLATION|KNOWN" | head -4; echo "rc=$?" )
